@@ -113,4 +113,12 @@ theorem next_prelude_tie (tag : GTag) (v : Val) (h : tag ≠ .executing) :
      | some 3 => Pre.answer (.d .undef) | some _ => Pre.answer (.t v) | none => Pre.resume) = genPre tag ⟨.next, v⟩ := by
   cases tag <;> simp_all [runPrelude, nextPrelude, tagCode, genPre]
 
+/-- bf2a7fb: the `restoreStacks`-error branch of `enterNextFinallyFrame` dispatches with `handleThrow` and RETURNS the
+uncaught exception (no `vm.throw`, which would panic outside the run loop) — `Mech.enfLoop2`'s `.handled` / `.uncaught`. -/
+theorem enterNextFinallyFrame_close_error_tie : enfCloseErrorUsesHandleThrow = true := by decide
+
+/-- bf2a7fb: `step1` unwinds the activation right after the final `restoreStacks`, before reporting its error —
+`Mech.step1Returning2`'s `.closeErrorAtEnd` carries the unwound vm. -/
+theorem step1_unwinds_before_close_error_tie : step1UnwindsBeforeReportingCloseError = true := by decide
+
 end GojaModel.C09.Tie
